@@ -27,7 +27,13 @@ def run(c):
         "their results are shipped per case (record/certificate matching is recomputed by the harness with SHA-256/512 directly)",
         "the two hypotheses of C13_authenticates_iff_spec on x509 (pools are sets; an empty root pool verifies nothing) are "
         "observed on the generated chains, not proved",
-        "tls.ConnectionState.ServerName is the MX host name and a completed handshake has at least one peer certificate (crypto/tls)",
+        "a completed handshake has at least one peer certificate, and tls.ConnectionState.ServerName reports the ServerName of the tls.Config the "
+        "client made the handshake with (crypto/tls); WHICH configuration that is, on every path of connect()'s retry ladder, is modelled "
+        "(C13_connect_servername_is_mx) and exercised end to end (op attempt)",
+        "op attempt: the outcome of a handshake under a given tls.Config (verification error / other error / success) is a parameter of the model "
+        "(Attempt.hello, any function); the driver instantiates it from crypto/x509 verdicts computed by the harness for the client's root pool",
+        "a TLSA record whose association data has a length no digest of its matching type has matches no certificate (law MatchNeedsFit of "
+        "C13_malformed_rrset_refused; the shipped match tables are computed by comparing the data)",
         "TLSA.Verify does not read the owner name of the record (hypothesis OwnerBlind of C13_owner_relabel_invariant; the match tables "
         "shipped per record are computed from the association data alone)",
         "resolver ops: the miekg/dns client and wire format are primitives (Transport parameter of the model; the tree's is plain UDP without "
@@ -43,8 +49,15 @@ def run(c):
         "on all chains, among them leaves issued for another name that chain to the matched anchor. ExtResolver (res) and PrepareConn+CheckConn "
         "through it (rconn): scripted servers on UDP+TCP behind a loopback and a non-loopback address, server lists of 0-2 entries, honest / "
         "AD-forging / non-validating / failing servers, truncated UDP answers with a differing TCP follow-up, every zone shape behind the "
-        "non-loopback address. Each op runs the real function and the Lean model (primitive results shipped as tables); distinct = distinct op lines",
-        explanation="theorems for all record lists, chains and primitive behaviours; model tied to dane.go/security.go by differential runs; "
+        "non-loopback address. Association data of a wrong length (31-byte 'SHA-256', empty, over-long, half, the other digest size) on every usable "
+        "record type in verify, and as whole / mixed RRsets in disc, conn, res, rconn. attemptMX (attempt): the real PrepareConn + connect() + CheckConn "
+        "against a scripted STARTTLS server presenting each of the 9 runtime-generated chains (right name / wrong name / expired / incomplete, chaining "
+        "to the asserted anchor or not) x 11 RRsets, client trusting no CA (first handshake fails verification, second made with InsecureSkipVerify) or "
+        "the root, 12 handshake histories (no STARTTLS, STARTTLS refused, handshake broken on the 1st/2nd connection, connection dropped), base "
+        "configuration with / without a ServerName / absent, 3 spellings of the MX host name, with / without resolver. "
+        "Each op runs the real function and the Lean model (primitive results shipped as tables); distinct = distinct op lines",
+        explanation="theorems for all record lists, chains, handshake histories and primitive behaviours; model tied to dane.go/security.go/"
+        "connect.go/dnssec.go by differential runs; "
         "monitor evaluates the property from ground truth known by construction",
         search=search,
     )
